@@ -29,6 +29,9 @@ ASSUMPTIONS = [
     "PKCS#1 padding, mask keys, clock and client randomness are scripted so results are comparable",
 ]
 BOUNDS = {"quick": {"unmerged_depth": 3}, "thorough": {"unmerged_depth": 4}}
+# the unmerged histories are explored to the full depth for the two most structured configurations and one event
+# shorter for the others (every configuration has its complete merged graph)
+FULL_DEPTH_CONFIGS = ("default", "encoders")
 
 CONFIGS = {
     "default": {},
@@ -37,8 +40,8 @@ CONFIGS = {
     # does not), and a second jitter record after everything else
     "duplicates": {"extra": [(29, 3, b"%windir%\\syswow64\\a.exe\x00"), (29, 3, b"%windir%\\syswow64\\b.exe\x00"), (30, 3, b"%windir%\\sysnative\\c.exe\x00"), (43, 1, b"\x00\x40"), (5, 1, b"\x00\x21")]},
     "encoders": {
-        "get": [("_HEADER", b"Accept: */*"), ("_PARAMETER", b"k=v"), ("BUILD", 0), ("MASK", None), ("NETBIOS", None), ("PREPEND", b"SESSION="), ("HEADER", b"Cookie")],
-        "post": [("BUILD", 0), ("BASE64URL", None), ("PARAMETER", b"id"), ("BUILD", 1), ("MASK", None), ("BASE64", None), ("APPEND", b"--"), ("PRINT", None)],
+        "get": [("_HEADER", b"Accept: */*"), ("_PARAMETER", b"k=v"), ("_HOSTHEADER", b"Host: cdn.example"), ("BUILD", 0), ("MASK", None), ("NETBIOS", None), ("PREPEND", b"SESSION="), ("HEADER", b"Cookie")],
+        "post": [("_HOSTHEADER", b"Host: cdn.example"), ("BUILD", 0), ("BASE64URL", None), ("PARAMETER", b"id"), ("BUILD", 1), ("MASK", None), ("BASE64", None), ("APPEND", b"--"), ("PRINT", None)],
         "recover": [("PRINT", None), ("APPEND", 10), ("PREPEND", 84), ("BASE64URL", None), ("MASK", None)],
     },
     "https-extra": {
@@ -51,7 +54,7 @@ CONFIGS = {
 EVENTS = (
     "raw_settings", "raw_settings_by_index", "settings", "settings_by_index", "derived", "settings_map",
     "c2http_aesrand", "c2http_rsa", "c2http_aeshmac", "client_dryrun", "profile", "transform_get", "transform_post",
-    "response_roundtrip", "iter_recover_http", "mutate", "version", "transform_norequest", "client_dryrun_defaults", "client_rerun", "rsa_session",
+    "response_roundtrip", "iter_recover_http", "mutate", "version", "transform_norequest", "client_dryrun_defaults", "client_rerun", "rsa_session", "client_dryrun_overrides",
 )
 
 
@@ -60,7 +63,7 @@ def plan(tier, seed):
     for name in CONFIGS:
         ch.append({"key": f"merged/{name}", "kind": "merged", "config": name, "cost": 300})
         for first in range(len(EVENTS)):
-            ch.append({"key": f"unmerged/{name}/{first}", "kind": "unmerged", "config": name, "first": first, "cost": len(EVENTS) ** (BOUNDS[tier]["unmerged_depth"] - 1)})
+            ch.append({"key": f"unmerged/{name}/{first}", "kind": "unmerged", "config": name, "first": first, "cost": len(EVENTS) ** (BOUNDS[tier]["unmerged_depth"] - (1 if name in FULL_DEPTH_CONFIGS else 2))})
     return ch
 
 
@@ -148,6 +151,12 @@ def do_event(cfg, ev, seed):
                     cl.run(cfg, dry_run=True, beacon_id=bid)
                     out.append(plain([cl.metadata.dumps(), cl.task_url, cl.user_agent]))
             return out
+        if ev == "client_dryrun_overrides":
+            # every override the caller can give (host header, user agent, sleep, jitter, domain, port, scheme)
+            with Seams():
+                cl = HttpBeaconClient()
+                cl.run(cfg, dry_run=True, beacon_id=1234, pid=4242, user="user", computer="PC", process="p.exe", internal_ip="10.0.0.9", arch="x64", host_header="front.example", user_agent="UA/1", sleeptime=1234, jitter=7, domain="d.example", port=8443, scheme="https")
+                return plain([cl.task_url, cl.callback_url, cl.user_agent, cl.host_header, cl.sleeptime, cl.jitter, tr_plain(cl.c2http.transform_get), tr_plain(cl.c2http.transform_submit)])
         if ev == "client_rerun":
             # one client object configured twice from this configuration (second time with another id) reports the
             # same as a fresh client configured once with that id
@@ -176,6 +185,9 @@ def do_event(cfg, ev, seed):
                     blob = c2.encrypt_metadata(m, h.pub)
                 req = h.transform_get.transform(c2.C2Data(metadata=blob), request=c2.HttpRequest(method=h.get_verb, uri=h.get_uris[0], params={}, headers={}, body=b""))
                 out1 = [(type(p).__name__, getattr(p, "bid", None)) for p in h.iter_recover_http(req)]
+                out1b = [(type(p).__name__, getattr(p, "bid", None)) for p in h.iter_recover_http(req)]
+                if out1b != out1:
+                    return {"same-message-recovered-twice": False, "first": plain(out1), "second": plain(out1b)}
                 d = hashlib.sha256(aes_rand).digest()
                 pkt = c2.encrypt_packet(struct.pack(">IIII", 1, 8, 32, 0), d[:16], d[16:])
                 resp = h.transform_response.transform(c2.C2Data(output=pkt.ciphertext + pkt.signature))
@@ -290,6 +302,8 @@ def judge(name, hist, seed, initial):
             return ("C14/result-depends-on-history/" + ev, _short(want), _short(res)), cfg
         if ev == "mutate" and "ACCEPTED" in res:
             return ("C14/mapping-accepts-mutation", "TypeError", res), cfg
+        if ev == "rsa_session" and isinstance(res, dict) and res.get("same-message-recovered-twice") is False:
+            return ("C14/result-depends-on-history/rsa_session/same-message-twice", _short(res["first"]), _short(res["second"])), cfg
         if ev == "client_rerun" and isinstance(res, dict) and not res["second-run-equals-fresh-client"]:
             return ("C14/result-depends-on-history/client_rerun", _short(res["fresh"]), _short(res["rerun"])), cfg
     snap = snapshot(cfg)
@@ -350,7 +364,7 @@ def chunk_merged(chunk, acc):
 
 def chunk_unmerged(chunk, acc):
     name = chunk["config"]
-    depth = BOUNDS[acc.tier]["unmerged_depth"]
+    depth = BOUNDS[acc.tier]["unmerged_depth"] - (0 if name in FULL_DEPTH_CONFIGS else 1)
     init = initial_snapshot(name, acc.seed)
     first = EVENTS[chunk["first"]]
     for rest in sequences(EVENTS, depth - 1, 1):
